@@ -2,6 +2,7 @@ SPECIFICATION TSpec
 CONSTANTS
   B = 16384
   Retry = 100
+  Strict = TRUE
 INVARIANTS
   TypeOK
   NoPanic
